@@ -423,10 +423,10 @@ Proof.
   destruct rest as [|c2 rest].
   - cbn [wrap_dotted]. destruct first; [reflexivity|]. destruct x; reflexivity.
   - change (wrap_dotted first (c :: c2 :: rest) x)
-      with (Scp (mkhdr c false 0 (negb first) 0 0) [wrap_dotted false (c2 :: rest) x] []).
+      with (Scp (mkhdr c false 0 (negb first) (opid (ohdr x)) 0) [wrap_dotted false (c2 :: rest) x] []).
     change (wrap_dotted first (c :: c2 :: rest) (erase_all x))
-      with (Scp (mkhdr c false 0 (negb first) 0 0) [wrap_dotted false (c2 :: rest) (erase_all x)] []).
-    cbn [erase_all map]. rewrite IH. reflexivity.
+      with (Scp (mkhdr c false 0 (negb first) (opid (ohdr (erase_all x))) 0) [wrap_dotted false (c2 :: rest) (erase_all x)] []).
+    cbn [erase_all map]. rewrite IH. destruct x; reflexivity.
 Qed.
 Lemma erase_all_adopt : forall x, erase_all (adopt x) = adopt (erase_all x).
 Proof.
